@@ -1,7 +1,7 @@
 use proc_macro2::TokenStream;
 use quote::{quote, ToTokens};
 
-use super::super::models::IntegerValidator;
+use super::super::models::{IntegerInnerType, IntegerValidator};
 use crate::common::{
     gen::error::gen_impl_error_trait,
     models::{ErrorTypePath, TypeName},
@@ -9,11 +9,13 @@ use crate::common::{
 
 pub fn gen_validation_error_type<T: ToTokens>(
     type_name: &TypeName,
+    inner_type: &IntegerInnerType,
     error_type_path: &ErrorTypePath,
     validators: &[IntegerValidator<T>],
 ) -> TokenStream {
     let definition = gen_definition(error_type_path, validators);
-    let impl_display_trait = gen_impl_display_trait(type_name, error_type_path, validators);
+    let impl_display_trait =
+        gen_impl_display_trait(type_name, inner_type, error_type_path, validators);
     let impl_error_trait = gen_impl_error_trait(error_type_path);
 
     quote! {
@@ -60,21 +62,36 @@ fn gen_definition<T>(
 
 fn gen_impl_display_trait<T: ToTokens>(
     type_name: &TypeName,
+    inner_type: &IntegerInnerType,
     error_type_path: &ErrorTypePath,
     validators: &[IntegerValidator<T>],
 ) -> TokenStream {
+    // A bound given as an expression has no type of its own: evaluate it as a value of the inner
+    // type, the way the validator does, before printing it.
     let match_arms = validators.iter().map(|validator| match validator {
         IntegerValidator::Greater(val) => quote! {
-             #error_type_path::GreaterViolated => write!(f, "{} is too small. The value must be greater than {:#?}.", stringify!(#type_name), #val)
+             #error_type_path::GreaterViolated => {
+                 let bound: #inner_type = #val;
+                 write!(f, "{} is too small. The value must be greater than {:#?}.", stringify!(#type_name), bound)
+             }
         },
         IntegerValidator::GreaterOrEqual(val) => quote! {
-             #error_type_path::GreaterOrEqualViolated => write!(f, "{} is too small. The value must be greater or equal to {:#?}.", stringify!(#type_name), #val)
+             #error_type_path::GreaterOrEqualViolated => {
+                 let bound: #inner_type = #val;
+                 write!(f, "{} is too small. The value must be greater or equal to {:#?}.", stringify!(#type_name), bound)
+             }
         },
         IntegerValidator::Less(val) => quote! {
-             #error_type_path::LessViolated=> write!(f, "{} is too big. The value must be less than {:#?}.", stringify!(#type_name), #val)
+             #error_type_path::LessViolated=> {
+                 let bound: #inner_type = #val;
+                 write!(f, "{} is too big. The value must be less than {:#?}.", stringify!(#type_name), bound)
+             }
         },
         IntegerValidator::LessOrEqual(val) => quote! {
-             #error_type_path::LessOrEqualViolated=> write!(f, "{} is too big. The value must be less or equal to {:#?}.", stringify!(#type_name), #val)
+             #error_type_path::LessOrEqualViolated=> {
+                 let bound: #inner_type = #val;
+                 write!(f, "{} is too big. The value must be less or equal to {:#?}.", stringify!(#type_name), bound)
+             }
         },
         IntegerValidator::Predicate(_) => quote! {
              #error_type_path::PredicateViolated => write!(f, "{} failed the predicate test.", stringify!(#type_name))
